@@ -45,7 +45,7 @@ pub fn plan(property: &str) -> Option<Plan> {
         "C04" => Plan { property: "C04", level: "exploration", parts: vec![(Reject, 30000, 600000)], rule: "one case = one seeded history with ~30% invalid calls (late-failure biased), each refused call bracketed by full snapshots, plus a twin run with the refused calls deleted; non-trivial = at least one refused call; distinct = different fingerprint", assumptions: common_assume },
         "C05" => Plan { property: "C05", level: "exploration", parts: vec![(Clean, 20000, 400000), (Reject, 10000, 200000), (Benign, 6000, 100000)], rule: rule_hist, assumptions: common_assume },
         "C06" => Plan { property: "C06", level: "exploration", parts: vec![(Schema, 30000, 600000)], rule: rule_hist, assumptions: common_assume },
-        "C08" => Plan { property: "C08", level: "exploration", parts: vec![(Clean, 22000, 400000), (Crash, 8000, 200000), (Foreign, 8000, 200000)], rule: rule_hist, assumptions: common_assume },
+        "C08" => Plan { property: "C08", level: "exploration", parts: vec![(Clean, 20000, 400000), (Crash, 6000, 200000), (Foreign, 6000, 200000), (Reject, 8000, 200000)], rule: rule_hist, assumptions: common_assume },
         "C09" => Plan { property: "C09", level: "exploration", parts: vec![(Corrupt, 60000, 2000000)], rule: "one case = an image from a live run, damaged by 1-3 raw-sector or stream-layer faults, then open + read sweep + mutate sweep + flush; non-trivial = the corruption was applied and open was attempted; distinct = different fingerprint", assumptions: common_assume },
         "C10" => Plan { property: "C10", level: "exploration", parts: vec![(Summary, 30000, 600000)], rule: rule_hist, assumptions: common_assume },
         "C11" => Plan { property: "C11", level: "exploration", parts: vec![(Streams, 24000, 500000), (Handles, 8000, 200000)], rule: rule_hist, assumptions: common_assume },
@@ -138,7 +138,29 @@ pub fn run_one(trace: &Trace) -> RunResult {
     let keep_final = trace.profile == "reject";
     let cfg = ExecCfg { oracles: true, keep_final };
     let mut res = exec::run(trace, &cfg);
-    if keep_final && res.violations.is_empty() && !res.stats.rejected_ids.is_empty() && !res.stats.tainted {
+    if keep_final && !res.violations.is_empty() && !res.stats.rejected_ids.is_empty() && !res.stats.tainted {
+        // something went wrong in a history with refused calls: if the same
+        // history without them is clean, the refused calls changed something
+        let mut twin = trace.clone();
+        let rej: HashSet<u32> = res.stats.rejected_ids.iter().cloned().collect();
+        twin.ops.retain(|o| !rej.contains(&o.id));
+        let tr = exec::run(&twin, &ExecCfg { oracles: true, keep_final: false });
+        res.stats.probe("twin_run_after_violation");
+        if tr.violations.is_empty() && !res.violations.iter().any(|v| v.property() == "C04") {
+            let first = res.violations[0].clone();
+            res.violations.push(Violation {
+                check: "C04.twin".into(),
+                site: "twin-oracle".into(),
+                message: format!(
+                    "with its {} refused calls the history violates {} ({}); the same history without them does not",
+                    rej.len(),
+                    first.check,
+                    first.message
+                ),
+                op_id: first.op_id,
+            });
+        }
+    } else if keep_final && res.violations.is_empty() && !res.stats.rejected_ids.is_empty() && !res.stats.tainted {
         if let Some(img) = res.final_image.as_ref() {
             let mut twin = trace.clone();
             let rej: HashSet<u32> = res.stats.rejected_ids.iter().cloned().collect();
